@@ -25,7 +25,7 @@ RULE = ("(a) redis 2 consumers x 1 message: all C(10,5)=252 orders of the 5+5 ga
 ASSUMPTIONS = ["Redis and RabbitMQ are wire-level fakes; the gate delays a client's command at the server, which is what arbitrary network latency can do",
                "redis priority polling order pinned (priorities_distribution 1/0/0) in the exhaustive enumeration so that a take is exactly five commands"]
 EVAL_COUNTER = "scenarios_judged"
-REQUIRED = ["scenarios_judged", "exhaustive_orders", "gated_random_runs", "mem_offset_runs", "multi_worker_runs", "deliveries_seen", "relay_runs", "relay_returns", "relay_finish_while_other_holds", "relay_handover_patterns", "maintenance_while_held", "finish_while_take_in_flight", "stops_while_other_worker_runs", "handover_windows_seen", "timezone_offset_runs", "jobs_retried_without_backoff", "handovers_from_a_slowly_unwinding_execution"]
+REQUIRED = ["scenarios_judged", "exhaustive_orders", "gated_random_runs", "mem_offset_runs", "multi_worker_runs", "deliveries_seen", "relay_runs", "relay_returns", "relay_finish_while_other_holds", "relay_handover_patterns", "maintenance_while_held", "finish_while_take_in_flight", "stops_while_other_worker_runs", "handover_windows_seen", "timezone_offset_runs", "jobs_retried_without_backoff", "handovers_from_a_slowly_unwinding_execution", "fetched_ahead_messages_outliving_their_timeout"]
 CASE_TIMEOUT = 150
 
 
@@ -52,6 +52,9 @@ def gen_cases(tier, seed):
         cases.append({"type": "maint", "kind": "redis", "timeout": to, "wait": [1.5, 3.0, 61.0][i % 3], "seed": rnd.randrange(10**6)})
         # the same on a machine whose local time is ahead of / behind UTC (in-flight marks are UNIX times, "now" is local)
         cases.append({"type": "maint", "kind": "redis", "timeout": to, "wait": [1.5, 3.0, 61.0][i % 3], "seed": rnd.randrange(10**6), "tz": ["MSK-3", "JST-9", "EST5", "NPT-5:45"][i % 4]})
+    for n_ in ((1, 3) if tier == "quick" else (1, 2, 3, 8)):
+        cases.append({"type": "backlog_timeout", "kind": "redis", "n": n_, "seed": rnd.randrange(10**6), "pause": True})
+        cases.append({"type": "backlog_timeout", "kind": "redis", "n": n_, "seed": rnd.randrange(10**6), "pause": False})
     for kind in ("mem", "redis", "rabbit"):
         for i in range({"quick": 4, "thorough": 40}[tier]):
             cases.append({"type": "workers", "kind": kind, "k": rnd.choice([2, 3]), "n": rnd.choice([3, 8, 20]), "seed": rnd.randrange(10**6), "tl": rnd.choice([1, 3, 1000])})
@@ -568,6 +571,65 @@ async def maint(loop, case, out, stats, fps):
         rig.close()
 
 
+async def backlog_timeout(loop, case, out, stats, fps):
+    """Redis: messages a consumer has fetched ahead (not handed out yet) outlive their execution timeout there; another client's
+    maintenance returns them to the queue; then the first consumer shuts down. Every message is delivered once from then on."""
+    from repid.message import MessageCategory
+    from rv.rigs import Rig, key_of
+
+    rig = Rig("redis", loop, seed=case["seed"], latency=0.002)
+    try:
+        c1 = rig.make_connection("p1")
+        await c1.connect()
+        mb = c1.message_broker
+        await mb.queue_declare("q")
+        P = mb.PARAMETERS_CLASS
+        ids = [f"b{i}" for i in range(case["n"])]
+        for id_ in ids:
+            await mb.enqueue(key_of(c1, id_, "t", "q"), "p", P(execution_timeout=timedelta(seconds=1)))
+        a = mb.get_consumer("q", None, None, MessageCategory.NORMAL)
+        await a.start()  # fetches ahead into its local buffer; the application never asks for anything
+        if case.get("pause"):
+            # (what a worker whose slots are all busy does; an un-paused consumer goes on polling and can fetch the returned
+            # messages a second time - see the listed finding below)
+            await asyncio.sleep(0.6)
+            await a.pause()
+        await asyncio.sleep(3.2)
+        await rig.quiesce_wire()
+        c2 = rig.make_connection("p2")
+        await c2.connect()  # maintenance: whatever has been marked in flight for more than its second goes back
+        await asyncio.sleep(0.2)
+        await asyncio.wait_for(a.finish(), 20)
+        await asyncio.sleep(0.2)
+        seen = collections.Counter()
+        holders = []
+        for lab, conn in (("C", c1), ("D", c2)):
+            cons = conn.message_broker.get_consumer("q", None, None, MessageCategory.NORMAL)
+            await cons.start()
+            holders.append((cons, conn))
+            while True:
+                try:
+                    k, _pl, _pr = await asyncio.wait_for(cons.consume(), 2.5)
+                except asyncio.TimeoutError:
+                    break
+                seen[k.id_] += 1  # (held, not settled: a second copy would go to the next consumer)
+        stats["scenarios_judged"] += 1
+        stats["fetched_ahead_messages_outliving_their_timeout"] += len(ids)
+        stats["deliveries_seen"] += sum(seen.values())
+        fps.add(f"backlog_timeout/{case['n']}/{int(bool(case.get('pause')))}")
+        twice = sorted(i for i, n_ in seen.items() if n_ > 1)
+        if twice:
+            out.append(V("held_twice", "redis", "fetched-ahead/timeout/maintenance/finish" if case.get("pause") else "fetched-ahead/refetched-after-maintenance/finish-rejects-twice", f"{twice} were fetched ahead by a consumer, outlived their 1 s execution timeout in its buffer, were returned by another client's maintenance, "
+                                                                                      f"and after that consumer's finish() two consumers were handed them: {dict(seen)}"))
+        for cons, _c in holders:
+            await cons.finish()
+        await c2.disconnect()
+        await c1.disconnect()
+        stats["unknown_server_commands"] += rig.unknown_commands()
+    finally:
+        rig.close()
+
+
 async def workers_stop(loop, case, inject_step, info):
     """Two workers (separate connections) on one queue with a backlog of short successful jobs; worker 1 gets a stop request
     at loop step `inject_step` (None: never) with a graceful period longer than any job. Every job must succeed exactly once."""
@@ -867,7 +929,7 @@ def run_case(case):
             if len(missing) == case["n"]:
                 out.append(V("not_executed", kind, ctx, f"stop of worker 1 at step +{pt}: no job at all completed; state {[info['snapshot'].get(m) for m in missing[:4]]}"))
     else:
-        fn = {"gated": gated, "mem": mem_offsets, "workers": workers, "relay": relay, "maint": maint, "unwind": unwind}[case["type"]]
+        fn = {"gated": gated, "mem": mem_offsets, "workers": workers, "relay": relay, "maint": maint, "unwind": unwind, "backlog_timeout": backlog_timeout}[case["type"]]
         args = (out, stats, fps, samples) if case["type"] == "gated" else (out, stats, fps)
         import os
         import time as _time
